@@ -205,4 +205,17 @@ PROPS = {
                                      'the driver sorts every component before comparing (canonical form of a permutation class); the walker fills directive-argument defaults as the property states'],
         'assumptions': ['arrangements keep every document parseable by ggql (extensions are printed with their braces / "=", an empty "union U =" only at the end of a document)'],
     },
+    'C17': {
+        'level': 'proof',
+        'correspondence': 'Introspect.schema_answer / type_answer == the response of a real root to the full introspection query and to __type(name:) queries, abstracted to the same positional tree (names to numbers, wrappers by kind and ofType, member lists as sets)',
+        'rule': ('accepted schemas generated as for C13 (with a query operation; extra @deprecated on fields and enum values, with and without reason), loaded as one document, extend-split and shuffled, or in successive loads; for each, the three strategies for application data (interface resolvers, reflection, an installed AnyResolver) x includeDeprecated true/false (quick: a random half of the six); '
+                 'the full introspection query (types with kind, name, description, fields with arguments, defaults, types unrolled 9 levels through ofType, deprecation; interfaces; possibleTypes; enumValues; inputFields; directives with locations and arguments; the three operation roots) and __type lookups of a third of the type names plus an unknown name. '
+                 'The response is abstracted by the harness and compared with the tree computed by the extracted specification; any error entry in the response fails the case. non-trivial = every case; distinct by input text.'),
+        'explanation': ('Theorems C17_answer_determines_description (reading the answer back yields the description: dec_type (enc_type i) = Some i), C17_distinct_descriptions_distinct_answers, C17_type_references (wrappers through ofType at any depth), C17_unknown_type_is_null, C17_known_type (Coq, every state). '
+                        'The answer is a function of the accepted definitions and includeDeprecated only, so strategy independence is what the correspondence checks. PARTIAL: sub-selections other than the full one are covered by the executor model of C01, not re-proved here; the built-in __ types and directives are left out of the comparison; descriptions are compared as strings with "" for none; wrapper name/description (ggql answers "[T]" / "LIST", pinned by resolver_test.go) are not compared. '
+                        'Defects repaired: interface fields ignored includeDeprecated (c073db9); interfaces answered [] under AnyResolver (3b92a27); list/object and enum default values made the whole introspection fail (c679592, bf96950); meta-fields only on a type named Query (eb7cefd).'),
+        'trusted_base': COMMON_TB + ['modelled rather than verified: the Resolve methods of Root and of every schema node, root.go newUu*, resolve.go meta-field entry points',
+                                     'the harness abstraction of the JSON response (names to numbers, defaultValue text read back by a small reader, sorting of set-valued lists)'],
+        'assumptions': ['a string default value is answered raw (Who, not "Who"): pinned by TestResolveInterfaceInput and read accordingly', 'schemas without a query operation cannot be introspected at all and are not generated'],
+    },
 }
